@@ -147,6 +147,41 @@ func stopMonitor(k *K, name string, mk func() rawIter, o stopOpts) {
 			return
 		}
 	}
+	// Abandoned iterations must leave nothing behind: one more uninterrupted
+	// run, after all the stopped ones, must deliver what the first one did.
+	if len(full) > 0 {
+		var again []item
+		if p := catch(func() {
+			mk()(func(it item) bool {
+				if len(again) > len(full)+2 {
+					return false
+				}
+				again = append(again, it)
+				return true
+			})
+		}); p != nil {
+			k.Failf("panic-after-stopped-runs", "%s: panic in an uninterrupted run that follows stopped runs: %v", name, p)
+			return
+		}
+		same := sameTrace(again, full)
+		if o.unordered {
+			same = len(again) == len(full)
+			cnt := map[string]int{}
+			for _, it := range again {
+				cnt[it.String()]++
+			}
+			for key, n := range fullSet {
+				if cnt[key] != n {
+					same = false
+				}
+			}
+		}
+		if !same {
+			k.Failf("run-after-stopped-runs-differs", "%s: an uninterrupted run made after stopped runs differs from the first uninterrupted run:\n got  %s\n want %s", name, traceString(again), traceString(full))
+			return
+		}
+		k.Count("reruns_after_stops", 1)
+	}
 }
 
 func countFDs() int {
@@ -390,6 +425,28 @@ func snapChanged(snap []nodeSnap) string {
 }
 
 // checkTraversals compares both traversals with the reference orders.
+// abandonTraversals starts both traversals of a decoy tree and breaks out of
+// them early: whatever the library keeps between calls must not leak into
+// the traversals that follow.
+func abandonTraversals(r *rand.Rand) {
+	decoy, _ := randomTree(r, 5+r.IntN(40), r.IntN(4))
+	stopAt := 1 + r.IntN(6)
+	n := 0
+	for range decoy.PreOrder() {
+		n++
+		if n >= stopAt {
+			break
+		}
+	}
+	n = 0
+	for range decoy.PostOrder() {
+		n++
+		if n >= stopAt {
+			break
+		}
+	}
+}
+
 func checkTraversals(k *K, root *newick.Node, deep bool) {
 	var wantPre, wantPost []*newick.Node
 	if deep {
@@ -508,6 +565,11 @@ func c19Random(c *Ctx) {
 			k.Input("nodes", size)
 			if size <= 60 {
 				k.Input("tree", treeKey(root))
+			}
+			if r.IntN(2) == 0 {
+				abandonTraversals(r)
+				k.Count("abandoned_traversals_before", 1)
+				k.Input("abandoned_traversal_before", true)
 			}
 			checkTraversals(k, root, size > 5000)
 			if k.Failed() {
